@@ -1,5 +1,6 @@
 import Fzf.Lemmas.Matcher
 import Fzf.Spec.Algo
+import Fzf.Lemmas.Coordinator
 /-
 C08 — interactive results converge to a fresh filter of the current query.
 Property theorems only: the three mechanisms that stand between the latest request and what is
@@ -56,6 +57,40 @@ theorem C08_merger_cache_transparent {R : Type} (scan : SReq → R) (hext : Scan
     (sort0 : Bool) (rev0 : Nat) (rs : List SReq) (hpw : rs.Pairwise Valid) :
     ∀ x ∈ servePairs scan cacheable { sort := sort0, rev := rev0 } rs, x.2 = scan x.1 :=
   servePairs_spec scan hext cacheable rs [] _ (by intro e he; cases he) (by intro s hs; cases hs) hpw
+
+/-! The interplay of reader, coordinator, matcher and terminal (Model/Coordinator.lean). -/
+
+/-- **At rest the list is the search of the current settings over everything loaded.** For every
+    execution — any interleaving of items arriving, the input ending, the user editing the query
+    or toggling sort / exclusions / nth, reloads, the coordinator handling its events, the matcher
+    picking up, abandoning or completing scans, results being handed to the terminal — if it ends
+    in a state where input has ended and nothing is pending anywhere, the result on display is
+    the one computed for the query now in the prompt over all the items loaded, with the final
+    flag set. No order of overwriting events, cancelled scans or late results leaves an older
+    query's results on the screen. (What a scan computes for a request is the subject of
+    `C08_merger_cache_transparent`, `C08_chunk_cache_transparent` and the matching theorems of
+    C01–C04.) -/
+theorem C08_quiescent_shows_current (ls : List Coordinator.Label) (t : Coordinator.Co)
+    (hr : Coordinator.run {} ls = some t) (hq : Coordinator.Quiescent t) :
+    t.shown = some ⟨t.q, t.n, true⟩ :=
+  Coordinator.quiescent_shows_current ls t hr hq
+
+/-- **… and the rest state is reached.** Once input has ended, a state that is not at rest always
+    has a transition of fzf itself enabled, and each such transition uses up pending work: while
+    the user and the reader are silent at most `measure s` ≤ 14 of them happen. -/
+theorem C08_converges (s : Coordinator.Co) (hread : s.reading = false) :
+    (¬ Coordinator.Quiescent s → ∃ l, Coordinator.own l = true ∧ (Coordinator.step s l).isSome = true) ∧
+    (∀ l t, Coordinator.own l = true → Coordinator.step s l = some t → Coordinator.measure t < Coordinator.measure s) :=
+  ⟨Coordinator.not_stuck s hread, fun l t ho hs => Coordinator.own_step_decreases s t l ho hs⟩
+
+/- Non-vacuity: an execution with an edit racing a scan; the stale result is shown for a while,
+   the rest state shows the current one. -/
+example :
+    let ls : List Coordinator.Label := [.push, .push, .coordRead, .take, .eof, .edit 7, .finish, .coordFin,
+      .coordSearch, .coordRead, .take, .finish, .coordFin]
+    (Coordinator.run {} ls).map (fun t => (t.shown, decide (t.reading = false ∧ t.evRead = false ∧ t.evSearch = false ∧
+        t.evFin = none ∧ t.box = none ∧ t.running = none))) = some (some ⟨7, 2, true⟩, true) ∧
+    (Coordinator.run {} (ls.take 8)).map (·.shown) = some (some ⟨0, 2, false⟩) := by decide
 
 /-! Non-vacuity and a documented limit. -/
 example : (take (postAll ({} : Box Nat) [(true, 1), (false, 2), (true, 3), (false, 4)])).1.map (·.body) = some 4 := by decide
